@@ -20,11 +20,11 @@ func (x *Exec) join(name string, conds []Term, ts []Term) Term {
 		}
 		return out
 	}
-	v := x.C.Fresh(name, ts[0].Sort)
-	for i := range ts {
-		x.C.Assume(Implies(conds[i], Eq(v, ts[i])))
+	out := ts[len(ts)-1]
+	for i := len(ts) - 2; i >= 0; i-- {
+		out = Ite(conds[i], ts[i], out)
 	}
-	return v
+	return x.C.Define(name, out)
 }
 
 // rootAlloc follows FieldAddr/IndexAddr chains to the allocation they address.
@@ -48,6 +48,7 @@ type havocSet struct {
 	sorts map[Sort]bool
 	all   bool
 	maps  bool
+	clos  bool // a closure may run: it can write every captured (promoted) variable
 }
 
 func (x *Exec) loopHavocSet(fr *frame, li *loopInfo) *havocSet {
@@ -114,6 +115,12 @@ func (x *Exec) callHavoc(fr *frame, c *ssa.CallCommon, hs *havocSet) {
 		return
 	}
 	callee := c.StaticCallee()
+	if callee == nil && !c.IsInvoke() {
+		hs.clos = true
+	}
+	if callee != nil && callee.Parent() != nil {
+		hs.clos = true
+	}
 	if callee == nil {
 		if c.IsInvoke() {
 			if ct := x.E.Contracts[invokeKey(c)]; ct != nil && ct.Modifies != nil && len(ct.Modifies.List) == 0 {
@@ -169,6 +176,13 @@ func (x *Exec) enterLoop(fr *frame, li *loopInfo, s *State) *State {
 	}
 	hs := x.loopHavocSet(fr, li)
 	n := s.Clone()
+	if hs.clos {
+		for a := range n.Cells {
+			if a.Heap {
+				hs.cells[a] = true
+			}
+		}
+	}
 	for a := range hs.cells {
 		if old, ok := n.Cells[a]; ok {
 			n.Cells[a] = x.freshValue(n, a.Comment, old.T)
